@@ -166,7 +166,7 @@ class Bits:
             d.set_fn(self, v)
         except ValueError as e:
             raise bitstring.CreationError(e)
-        if length is not None and d.bitlength is not None and len(self) != d.bitlength:
+        if d.bitlength is not None and len(self) != d.bitlength:
             raise bitstring.CreationError(f"The value given for '{k}' has a length of {len(self)} bits, but a length of {d.bitlength} bits was specified.")
 
     def __getattr__(self, attribute: str) -> Any:
